@@ -397,126 +397,126 @@ class Ellipse:
         # geometry instance are restored before returning.
         geometry_settings = (self._geometry.linear_growth,
                              self._geometry.fix)
-        if isinstance(linear, bool):
-            self._geometry.linear_growth = linear
-        else:
-            linear = self._geometry.linear_growth
-        if fix_center and fix_pa and fix_eps:
-            warnings.warn(': Everything is fixed. Fit not possible.',
-                          AstropyUserWarning)
-            return IsophoteList([])
-        if fix_center or fix_pa or fix_eps:
-            self._geometry.fix = np.array([fix_center, fix_center, fix_pa,
-                                           fix_eps])
+        try:
+            if isinstance(linear, bool):
+                self._geometry.linear_growth = linear
+            else:
+                linear = self._geometry.linear_growth
+            if fix_center and fix_pa and fix_eps:
+                warnings.warn(': Everything is fixed. Fit not possible.',
+                              AstropyUserWarning)
+                return IsophoteList([])
+            if fix_center or fix_pa or fix_eps:
+                self._geometry.fix = np.array([fix_center, fix_center, fix_pa,
+                                               fix_eps])
 
-        # first, go from initial sma outwards until
-        # hitting one of several stopping criteria.
-        noiter = False
-        first_isophote = True
-        while True:
-            # first isophote runs longer
-            minit_a = 2 * minit if first_isophote else minit
-            first_isophote = False
+            # first, go from initial sma outwards until
+            # hitting one of several stopping criteria.
+            noiter = False
+            first_isophote = True
+            while True:
+                # first isophote runs longer
+                minit_a = 2 * minit if first_isophote else minit
+                first_isophote = False
 
-            isophote = self.fit_isophote(sma, step, conver, minit_a, maxit,
-                                         fflag, maxgerr, sclip, nclip,
-                                         integrmode, linear, maxrit,
-                                         noniterate=noiter,
-                                         isophote_list=isophote_list)
+                isophote = self.fit_isophote(sma, step, conver, minit_a, maxit,
+                                             fflag, maxgerr, sclip, nclip,
+                                             integrmode, linear, maxrit,
+                                             noniterate=noiter,
+                                             isophote_list=isophote_list)
 
-            # check for failed fit.
-            if isophote.stop_code < 0 or isophote.stop_code == 1:
-                # in case the fit failed right at the outset, return an
-                # empty list. This is the usual case when the user
-                # provides initial guesses that are too way off to enable
-                # the fitting algorithm to find any meaningful solution.
+                # check for failed fit.
+                if isophote.stop_code < 0 or isophote.stop_code == 1:
+                    # in case the fit failed right at the outset, return an
+                    # empty list. This is the usual case when the user
+                    # provides initial guesses that are too way off to enable
+                    # the fitting algorithm to find any meaningful solution.
 
-                if len(isophote_list) == 1:
-                    warnings.warn('No meaningful fit was possible.',
-                                  AstropyUserWarning)
-                    (self._geometry.linear_growth,
-                     self._geometry.fix) = geometry_settings
-                    return IsophoteList([])
+                    if len(isophote_list) == 1:
+                        warnings.warn('No meaningful fit was possible.',
+                                      AstropyUserWarning)
+                        return IsophoteList([])
 
-                self._fix_last_isophote(isophote_list, -1)
+                    self._fix_last_isophote(isophote_list, -1)
 
-                # get last isophote from the actual list, since the last
-                # `isophote` instance in this context may no longer be OK.
+                    # get last isophote from the actual list, since the last
+                    # `isophote` instance in this context may no longer be OK.
+                    isophote = isophote_list[-1]
+
+                    # if two consecutive isophotes failed to fit,
+                    # shut off iterative mode. Or, bail out and
+                    # change to go inwards.
+                    if (len(isophote_list) > 2
+                        and ((isophote.stop_code == 5
+                              and isophote_list[-2].stop_code == 5)
+                             or isophote.stop_code == 1)):
+                        if maxsma and maxsma > isophote.sma:
+                            # if a maximum sma value was provided by
+                            # user, and the current sma is smaller than
+                            # maxsma, keep growing sma in non-iterative
+                            # mode until reaching it.
+                            noiter = True
+                        else:
+                            # if no maximum sma, stop growing and change
+                            # to go inwards.
+                            break
+
+                # reset variable from the actual list, since the last
+                # `isophote` instance may no longer be OK.
                 isophote = isophote_list[-1]
 
-                # if two consecutive isophotes failed to fit,
-                # shut off iterative mode. Or, bail out and
-                # change to go inwards.
-                if (len(isophote_list) > 2
-                    and ((isophote.stop_code == 5
-                          and isophote_list[-2].stop_code == 5)
-                         or isophote.stop_code == 1)):
-                    if maxsma and maxsma > isophote.sma:
-                        # if a maximum sma value was provided by
-                        # user, and the current sma is smaller than
-                        # maxsma, keep growing sma in non-iterative
-                        # mode until reaching it.
-                        noiter = True
-                    else:
-                        # if no maximum sma, stop growing and change
-                        # to go inwards.
-                        break
+                # update sma. If exceeded user-defined
+                # maximum, bail out from this loop.
+                sma = isophote.sample.geometry.update_sma(step)
+                if maxsma and sma >= maxsma:
+                    break
 
-            # reset variable from the actual list, since the last
-            # `isophote` instance may no longer be OK.
-            isophote = isophote_list[-1]
+            # reset sma so as to go inwards.
+            first_isophote = isophote_list[0]
+            sma, step = first_isophote.sample.geometry.reset_sma(step)
 
-            # update sma. If exceeded user-defined
-            # maximum, bail out from this loop.
-            sma = isophote.sample.geometry.update_sma(step)
-            if maxsma and sma >= maxsma:
-                break
+            # now, go from initial sma inwards towards center (not at all if
+            # the first inward step already falls below the minimum sma).
+            while sma > max(minsma, 0.5):
+                isophote = self.fit_isophote(sma, step, conver, minit, maxit,
+                                             fflag, maxgerr, sclip, nclip,
+                                             integrmode, linear, maxrit,
+                                             going_inwards=True,
+                                             isophote_list=isophote_list)
 
-        # reset sma so as to go inwards.
-        first_isophote = isophote_list[0]
-        sma, step = first_isophote.sample.geometry.reset_sma(step)
+                # if abnormal condition, fix isophote but keep going.
+                if isophote.stop_code < 0:
+                    self._fix_last_isophote(isophote_list, 0)
 
-        # now, go from initial sma inwards towards center (not at all if
-        # the first inward step already falls below the minimum sma).
-        while sma > max(minsma, 0.5):
-            isophote = self.fit_isophote(sma, step, conver, minit, maxit,
-                                         fflag, maxgerr, sclip, nclip,
-                                         integrmode, linear, maxrit,
-                                         going_inwards=True,
-                                         isophote_list=isophote_list)
+                # but if we get an error from the scipy fitter, bail out
+                # immediately. This usually happens at very small radii
+                # when the number of data points is too small.
+                if isophote.stop_code == 3:
+                    break
 
-            # if abnormal condition, fix isophote but keep going.
-            if isophote.stop_code < 0:
-                self._fix_last_isophote(isophote_list, 0)
+                # reset variable from the actual list, since the last
+                # `isophote` instance may no longer be OK.
+                isophote = isophote_list[-1]
 
-            # but if we get an error from the scipy fitter, bail out
-            # immediately. This usually happens at very small radii
-            # when the number of data points is too small.
-            if isophote.stop_code == 3:
-                break
+                # figure out next sma; if exceeded user-defined
+                # minimum, or too small, bail out from this loop
+                sma = isophote.sample.geometry.update_sma(step)
+                if sma <= max(minsma, 0.5):
+                    break
 
-            # reset variable from the actual list, since the last
-            # `isophote` instance may no longer be OK.
-            isophote = isophote_list[-1]
+            # if user asked for minsma=0, extract special isophote there
+            if minsma == 0.0:
+                # isophote is appended to isophote_list
+                _ = self.fit_isophote(0.0, isophote_list=isophote_list)
 
-            # figure out next sma; if exceeded user-defined
-            # minimum, or too small, bail out from this loop
-            sma = isophote.sample.geometry.update_sma(step)
-            if sma <= max(minsma, 0.5):
-                break
+            # sort list of isophotes according to sma
+            isophote_list.sort()
 
-        # if user asked for minsma=0, extract special isophote there
-        if minsma == 0.0:
-            # isophote is appended to isophote_list
-            _ = self.fit_isophote(0.0, isophote_list=isophote_list)
-
-        # sort list of isophotes according to sma
-        isophote_list.sort()
-
-        (self._geometry.linear_growth,
-         self._geometry.fix) = geometry_settings
-
-        return IsophoteList(isophote_list)
+            return IsophoteList(isophote_list)
+        finally:
+            # also on the early returns and when the fit raises
+            (self._geometry.linear_growth,
+             self._geometry.fix) = geometry_settings
 
     def fit_isophote(self, sma, step=0.1, conver=DEFAULT_CONVERGENCE,
                      minit=DEFAULT_MINIT, maxit=DEFAULT_MAXIT,
